@@ -57,7 +57,7 @@ package roman
 
 //@ func DefaultParser
 //@   ensures [C10.accept] err == nil <==> (len(input) == 0 && r&RuleDisableEmptyAsZero == 0) || (len(input) > 0 && withinLimit(len(input)) && in(pattern, input))
-//@   ensures [C10.value] err == nil && len(input) > 0 ==> int(r0) == romanValue(input)
+//@   ensures [C10.value] err == nil && len(input) > 0 && romanValue(input) <= 18446744073709551615 ==> int(r0) == romanValue(input)
 //@   ensures [C10.value] err == nil && len(input) == 0 ==> r0 == 0
 //@   ensures [C10.zero C17.zero] err != nil ==> r0 == 0 && errAs(err, *NumberFormatError)
 //@   ensures [C18.limit] len(input) > 0 && !withinLimit(len(input)) ==> errIs(err, ErrInputTooLong) && errData(err, "inputLen") == 0
@@ -71,7 +71,68 @@ package roman
 //@ func (*Number).UnmarshalText
 //@   ensures [C17.recv] err != nil ==> *n == old(*n)
 //@   ensures [C10.accept] err == nil <==> len(data) == 0 || (withinLimit(len(data)) && in(pattern, data))
-//@   ensures [C10.value] err == nil && len(data) > 0 ==> int(*n) == romanValue(data)
+//@   ensures [C10.value] err == nil && len(data) > 0 && romanValue(data) <= 18446744073709551615 ==> int(*n) == romanValue(data)
 //@   assigns *n
+
+// ---- the statement of C02: the canonical numeral -----------------------------------------------------------------
+// A decimal digit d rendered with symbols one/five/ten: subtractive for 4 and 9 unless the long flag asks for the
+// additive form; additive otherwise (the five-symbol if d >= 5, then d mod 5 one-symbols).
+//@ pure func dtLen(d int, long4 bool, long9 bool) int = ite((d == 4 && !long4) || (d == 9 && !long9), 2, ite(d >= 5, 1, 0) + fmod(d, 5))
+//@ pure func dtAt(d int, i int, one byte, five byte, ten byte, long4 bool, long9 bool) byte = ite(d == 4 && !long4, ite(i == 0, one, five),
+//@     ite(d == 9 && !long9, ite(i == 0, one, ten), ite(d >= 5 && i == 0, five, one)))
+//@ pure func digitText(s bytes, d int, one byte, five byte, ten byte, long4 bool, long9 bool) bool = len(s) == dtLen(d, long4, long9)
+//@     && forall i in 0..5 :: i < len(s) ==> s[i] == dtAt(d, i, one, five, ten, long4, long9)
+
+//@ func toHundreds
+//@   requires value <= 9
+//@   bound len(result) <= 5
+//@   ensures [C02.digit] digitText(result, int(value), 'C', 'D', 'M', f&FormatLong400 != 0, f&FormatLong900 != 0)
+//@ func toTens
+//@   requires value <= 9
+//@   bound len(result) <= 5
+//@   ensures [C02.digit] digitText(result, int(value), 'X', 'L', 'C', f&FormatLong40 != 0, f&FormatLong90 != 0)
+//@ func toUnits
+//@   requires value <= 9
+//@   bound len(result) <= 5
+//@   ensures [C02.digit] digitText(result, int(value), 'I', 'V', 'X', f&FormatLong4 != 0, f&FormatLong9 != 0)
+
+// lower-casing changes the seven Roman capitals to their small letters and nothing else
+//@ pure func lower(c byte) byte = ite(c == 'I' || c == 'V' || c == 'X' || c == 'L' || c == 'C' || c == 'D' || c == 'M', c+32, c)
+//@ func toLower
+//@   ensures [C02.case C16.inplace] len(result) == len(buf) && forall i in 0..len(buf) :: result[i] == lower(old(buf)[i])
+//@   ensures sameOrFresh(result, buf)
+//@   assigns buf
+//@   loop 0 invariant 0 <= rangeindex+1 && rangeindex+1 <= len(buf)
+//@   loop 0 invariant forall i in 0..rangeindex+1 :: buf[i] == lower(old(buf)[i])
+//@   loop 0 invariant forall i in rangeindex+1..len(buf) :: buf[i] == old(buf)[i]
+//@   loop 0 invariant heapSameExcept(buf)
+
+// The canonical numeral of n appended to buf: n/1000 times M, then the hundreds, tens and units digits.
+//@ pure func cs(c byte, f Format) byte = ite(f&FormatLowerCase != 0, c+32, c)
+//@ pure func th(n Number) int = int(uint64(n) / 1000)
+//@ pure func dH(n Number) int = int(uint64(n) % 1000 / 100)
+//@ pure func dT(n Number) int = int(uint64(n) % 100 / 10)
+//@ pure func dU(n Number) int = int(uint64(n) % 10)
+//@ pure func lenH(n Number, f Format) int = dtLen(dH(n), f&FormatLong400 != 0, f&FormatLong900 != 0)
+//@ pure func lenT(n Number, f Format) int = dtLen(dT(n), f&FormatLong40 != 0, f&FormatLong90 != 0)
+//@ pure func lenU(n Number, f Format) int = dtLen(dU(n), f&FormatLong4 != 0, f&FormatLong9 != 0)
+//@ pure func numeralLen(n Number, f Format) int = th(n) + lenH(n, f) + lenT(n, f) + lenU(n, f)
+//@ pure func numeralAt(w bytes, o int, n Number, f Format) bool = (forall i in 0..th(n) :: w[o+i] == cs('M', f))
+//@     && (forall i in 0..5 :: i < lenH(n, f) ==> w[o+th(n)+i] == cs(dtAt(dH(n), i, 'C', 'D', 'M', f&FormatLong400 != 0, f&FormatLong900 != 0), f))
+//@     && (forall i in 0..5 :: i < lenT(n, f) ==> w[o+th(n)+lenH(n, f)+i] == cs(dtAt(dT(n), i, 'X', 'L', 'C', f&FormatLong40 != 0, f&FormatLong90 != 0), f))
+//@     && (forall i in 0..5 :: i < lenU(n, f) ==> w[o+th(n)+lenH(n, f)+lenT(n, f)+i] == cs(dtAt(dU(n), i, 'I', 'V', 'X', f&FormatLong4 != 0, f&FormatLong9 != 0), f))
+
+//@ func DefaultFormatter
+//@   ensures [C02.canon C16.append] err == nil && len(result) == len(buf) + numeralLen(n, f)
+//@   ensures [C02.canon C16.append] numeralAt(result, len(buf), n, f)
+//@   ensures [C16.append] forall i in 0..len(buf) :: result[i] == old(buf)[i]
+//@   ensures [C16.inplace] sameOrFresh(result, buf)
+//@   assigns buf[len(buf):]
+//@   loop 0 invariant j <= uint64(n)/1000
+//@   loop 0 invariant len(theBuffer()) == len(buf) + int(j)
+//@   loop 0 invariant forall i in 0..len(buf) :: theBuffer()[i] == old(buf)[i]
+//@   loop 0 invariant forall i in 0..int(j) :: theBuffer()[len(buf)+i] == 'M'
+//@   loop 0 invariant sameOrFresh(theBuffer(), buf)
+//@   loop 0 invariant heapSameExceptFrom(buf, len(buf))
 
 var _ = []any{DefaultParser[string], DefaultParser[[]byte], Valid[string], Valid[[]byte], checkInputLength[string], checkInputLength[[]byte]}
